@@ -1,4 +1,4 @@
-#!/usr/bin/env python3
+#!/venv/bin/python
 """Regenerates /verif/MANIFEST.json from the table below (one entry per property with a working check)."""
 import json
 from pathlib import Path
